@@ -52,6 +52,7 @@ static inline std::string hq_eval(Ctx &c, StringDictionary *d, const HQ &q) {
     obs::crumb("C14", "history", hq_str(q));
     IteratorDictID *it = q.type == 2 ? d->locatePrefix(p.b, (uint)p.len) : d->locateSubstr(p.b, (uint)p.len);
     chk_intact(p, "history", HQ_NAMES[q.type]);
+    p.release();
     if (!it) { r = "NULLIT"; break; }
     bool over;
     std::vector<size_t> ids = drain_ids(c, it, &over);
@@ -69,6 +70,7 @@ static inline std::string hq_eval(Ctx &c, StringDictionary *d, const HQ &q) {
     obs::crumb("C14", "history", hq_str(q));
     IteratorDictString *it = q.type == 3 ? d->extractPrefix(p.b, (uint)p.len) : q.type == 5 ? d->extractSubstr(p.b, (uint)p.len) : d->extractTable();
     chk_intact(p, "history", HQ_NAMES[q.type]);
+    p.release();
     if (!it) { r = "0:" + std::to_string(FNV0); break; } // NULL and empty are the same answer
     bool over, ns;
     std::vector<StrItem> v = drain_strs(c, it, &over, &ns);
@@ -185,6 +187,7 @@ static inline void op_history(Ctx &c, const std::string &img) {
       obs::crumb("C14", "history", "open " + hq_str(q));
       IteratorDictString *it = q.type == 3 ? c.d->extractPrefix(p->b, (uint)p->len) : q.type == 5 ? c.d->extractSubstr(p->b, (uint)p->len) : c.d->extractTable();
       chk_intact(*p, "history", HQ_NAMES[q.type]);
+      p->release();   // the buffer is gone while the iterator stays open
       open.push_back({i, it, {}, p});
       obs::count("cls.iter_interleaved");
     } else {
